@@ -4,24 +4,33 @@ from vlib import *
 import prnlib
 
 ID = "C31"
-COQ_FILES = ["Common/Bytes.v", "Common/Corr.v", "Model/Trivia.v", "Proofs/Trivia.v", "Props/C31.v"]
+COQ_FILES = ["Common/Bytes.v", "Common/Corr.v", "Model/Trivia.v", "Proofs/Trivia.v", "Model/BlockComment.v", "Proofs/BlockComment.v",
+             "Props/C31.v"]
 PROPS = "Props/C31.v"
 THEOREMS = ["C31_format_preserves_token_sequence", "C31_format_preserves_declarations",
-            "C31_format_keeps_block_order", "C31_format_rank_sorted"]
+            "C31_format_keeps_block_order", "C31_format_rank_sorted",
+            "C31_block_comment_verbatim_idempotent", "C31_block_comment_normalised_idempotent"]
 AXIOMS_OK = []
 TRUSTED = ["hand-written Gallina model of the declaration order of format mode (format.go compareDecl / sortFileDeclsForFormat, "
            "printDecl dropping empty declarations); the sort keys are read from the real code through the hook printer.VerifDeclSort",
+           "hand-written Gallina model of printer.emitBlockComment and of dom's rendering of what it pushes (Model/BlockComment.v: "
+           "computeVisualIndent, unindent, the verbatim branch, the prefix / plain normalisation, pending line feeds, the indentation "
+           "dom.Indent writes after a line feed); the indentation depth of a comment is taken as two spaces per enclosing bracket pair",
            "correspondence harness (harness/cmd/printer): token sequences of source and formatted output, stable compiler "
            "protocompile.Compiler for the descriptor comparison",
            "the canonicaliser that erases what format mode changes on purpose (message-literal separators and colons, angle brackets "
            "spelled as braces, empty declarations): checks/prnlib.py solid_erased"]
-ASSUMPTIONS = ["P-core, mostly differential: the theorems cover the declaration order only; that the formatted file compiles to the same "
-               "descriptors and that formatting is idempotent is decided by running the real code (direct oracle)",
+ASSUMPTIONS = ["P-core, mostly differential: the theorems cover the declaration order and the text of a block comment (printed again at the "
+               "same indentation depth it does not change; Legacy preset: for comments whose last line is not blank and whose other "
+               "lines do not begin with the closer, which holds for every comment token); that the formatted file compiles to the same "
+               "descriptors and that formatting as a whole is idempotent is decided by running the real code (direct oracle)",
                "dom layout (experimental/dom) is not modelled; idempotence of the layout function was not proved (the second pass goes "
                "through the parser and the trivia index again, there is no layout language to state it on)"]
 
 HEADER = ("From Coq Require Import List NArith Bool.\nImport ListNotations.\n"
           "From PV Require Import Common.Corr Model.Trivia.\nOpen Scope N_scope.\n")
+HEADER_BC = ("From Coq Require Import List NArith Bool.\nImport ListNotations.\n"
+             "From PV Require Import Common.Corr Model.BlockComment.\nOpen Scope N_scope.\n")
 
 HAND = [
     'syntax = "proto3";\nmessage A {}\n',
@@ -77,6 +86,24 @@ def fc_term(o, preset):
     return "FC [%s] [%s]" % ("; ".join(ds), ";".join(enc(t) for t in obs))
 
 
+def block_comments(tree):
+    """texts of the block comments of a token tree (harness dump), stream order"""
+    out = []
+
+    def walk(ts):
+        for t in ts:
+            if t["c"] == 3:
+                out.append(bytes.fromhex(t["t"]))
+            if t["c"] >= 9:
+                walk(t["ch"])
+    walk(tree or [])
+    return out
+
+
+def lines_term(b):
+    return "[" + ";".join(nlist(l) for l in b.split(b"\n")) + "]"
+
+
 def run(ctx):
     rng = ctx.rng
     cases = []   # (stratum, bytes, extra harness fields)
@@ -92,7 +119,7 @@ def run(ctx):
         cases.append(("corpus:" + os.path.relpath(f, REPO), open(f, "rb").read(), {}))
     plan = [("plain", ctx.budget(60, 1200)), ("plain-nocomment", ctx.budget(20, 400)), ("shuffled-plain", ctx.budget(40, 900)),
             ("ws-adversarial", ctx.budget(80, 1800)), ("adversarial", ctx.budget(110, 3600)),
-            ("plain-blockcomments", ctx.budget(90, 2400))]
+            ("plain-blockcomments", ctx.budget(70, 2000)), ("plain-onecomment", ctx.budget(50, 1500))]
     for strat, n in plan:
         for _ in range(n):
             if strat == "ws-adversarial":
@@ -108,12 +135,15 @@ def run(ctx):
                 "none, text on the opening / closing line, trailing white space, LF / CRLF - in every position at a declaration "
                 "boundary: first in file, own lines before a declaration at any depth, attached or detached, trailing, last in a "
                 "body, last in file; in a third of the files also after `{`, on the next declaration's line, inside a "
-                "declaration), ws-adversarial (arbitrary whitespace, no comments) and adversarial (comments anywhere); "
+                "declaration), plain-onecomment (the same with exactly one comment, at a declaration boundary: the comment of the "
+                "formatted output is also compared with the Coq model of emitBlockComment), ws-adversarial (arbitrary whitespace, "
+                "no comments) and adversarial (comments anywhere); "
                 "each source x each preset (default, legacy) is one evaluation; distinct = distinct (source, preset); non-trivial = "
                 "the source parses without errors")
-    ins = [dict({"s": s.hex(), "want": ["fmt", "compile"]}, **extra) for _, s, extra in cases]
+    ins = [dict({"s": s.hex(), "want": ["fmt", "compile", "bc"]}, **extra) for _, s, extra in cases]
     outs = ctx.impl("printer", ins)
     terms, meta = [], []
+    bc_terms, bc_meta = [], []
     hist = {}
     for (strat, src, _), o in zip(cases, outs):
         rep = {"stratum": strat, "source": src.decode("utf-8", "replace")[:4000]}
@@ -166,6 +196,25 @@ def run(ctx):
                     extra = {"comment_after_first_pass": bytes.fromhex(idem.get("first", "")).decode("utf-8", "replace"),
                              "comment_after_second_pass": bytes.fromhex(idem.get("second", "")).decode("utf-8", "replace")}
                 ctx.violation(key, what, dict(rp, second=f2.decode("utf-8", "replace")[:4000], second_pass_changed=idem.get("kind"), **extra))
+            # correspondence 2: the text of a block comment.  A source with exactly one block comment, at a declaration
+            # boundary (not inside a declaration, where the printer adds continuation indents the model does not
+            # know): the comment of the formatted output must be what the model of emitBlockComment prints at an
+            # indentation of two spaces per enclosing bracket pair.
+            if strat in ("plain-onecomment", "hand") and r["nerr2"] == 0:
+                sc = block_comments(o["tree"])
+                feats = prnlib.comment_features(o["tree"])
+                if len(sc) == 1 and not (feats & {"BC:inside", "BC:same-line"}):
+                    bcs = r.get("bcs") or []
+                    if len(bcs) == 1:
+                        obs = bytes.fromhex(bcs[0][0])
+                        bc_terms.append("BC %s %d%%nat %s %s" % ("true" if preset == "legacy" else "false", 2 * bcs[0][2],
+                                                                lines_term(sc[0]), lines_term(obs)))
+                        bc_meta.append(dict(rp, comment=sc[0].decode("utf-8", "replace"), printed_as=obs.decode("utf-8", "replace"),
+                                            indentation=2 * bcs[0][2]))
+                    elif not (len(bcs) == 0 and cls == "empty-declaration"):
+                        # (the comments attached to a lone `;` are dropped with it: known finding, not this model's business)
+                        ctx.corr_break("block-comment-text", dict(rp, comment=sc[0].decode("utf-8", "replace")),
+                                       {"block_comments_in_output": len(bcs)})
             # correspondence: the declaration order and the token sequence of the output (only when it parses)
             if r["nerr2"] == 0 and len(src) < 8000:
                 t = fc_term(o, preset)
@@ -177,6 +226,13 @@ def run(ctx):
     mism, err = coq_eval_mismatches("cases_C31", HEADER, terms, "format_chk", shard_size=max(8, len(terms) // (2 * NCPU) + 1))
     if err:
         raise RuntimeError(err)
+    mism_bc, err = coq_eval_mismatches("cases_C31bc", HEADER_BC, bc_terms, "bc_chk", shard_size=max(8, len(bc_terms) // (2 * NCPU) + 1))
+    if err:
+        raise RuntimeError(err)
+    for k in mism_bc:
+        # the formatter printed a block comment differently from the model the idempotence theorems are about
+        ctx.corr_break("block-comment-text", bc_meta[k], {})
+    ctx.rule += "; %d (block comment, preset) pairs were compared with the Coq model of emitBlockComment" % len(bc_terms)
     for k in mism:
         rp, explained = meta[k]
         # The non-skippable tokens of the output are not those of the source in format order: a token was
